@@ -82,14 +82,13 @@ class BranchingList:
     def false_case(self):
         """ Checks if case value is false
         """
-        if not self.state:
-            return False
-        # count number of true cases
-        branch = self._get_branch_id()
-        num_true = sum([self.cases[c].value==True for c in self.branches[branch].cases])
-        # only first `true` case is valid
-        case = self._get_case_id()
-        return num_true!=1 or self.cases[case].value == False
+        # a node is skipped unless, in every open branch, the current case is the first true one
+        for branch in self.state:
+            cases = self.branches[branch].cases
+            num_true = sum([self.cases[c].value==True for c in cases])
+            if num_true!=1 or self.cases[cases[-1]].value == False:
+                return True
+        return False
         
     def solve_case(self, node):
         """ Manage condition nodes
